@@ -224,6 +224,36 @@ def check_history(hist):
     return None
 
 
+ROWS2 = [(7, 'n', Decimal('4'), datetime.date(2022, 5, 5)), (1, 'xyz', Decimal('9'), datetime.date(2024, 1, 5)), (None, None, None, None)]
+
+
+def check_data_change(res):
+    """the same statement text on the same connection after the data changed (the table re-registered, its rows replaced in place,
+    emptied): the result is the one a fresh connection over the new data gives - nothing of an earlier execution is kept"""
+    texts = [t for t, pl in STMTS if pl[0] is None][:12] + [
+        'SELECT a FROM #t WHERE a IN (SELECT a FROM #t WHERE a > 1)', 'SELECT a FROM #t WHERE a NOT IN (SELECT a FROM #t WHERE a > 100)',
+        'SELECT a, b FROM (SELECT a, b FROM #t WHERE a > 1) ORDER BY a', 'SELECT count(*), sum(c) FROM #t', 'SELECT * FROM #t']
+    for text in texts:
+        for how in ('re-register', 'in-place', 'emptied'):
+            res.case(('data-change', text, how))
+            c = conn()
+            try:
+                c.execute(text).fetchall()
+                new_rows = [] if how == 'emptied' else ROWS2
+                if how == 're-register':
+                    c.tables['t'] = make_conn(t=(COLS, new_rows)).tables['t']
+                else:
+                    c.tables['t'].rows[:] = new_rows
+                got = c.execute(text).fetchall()
+                exp = make_conn(t=(COLS, new_rows)).execute(text).fetchall()
+            except Exception as e:
+                res.violation('h09:data-change:' + how + ':' + text[:50], 'a statement executes again after the data changed', {'query': text, 'change': how}, f'{type(e).__name__}: {e}', 'rows')
+                continue
+            if got != exp:
+                res.violation('h09:data-change:' + how + ':' + text[:50], 'a result depends only on the statement, its parameters and the data: executed again after the data changed, '
+                              'a statement sees the new data', {'query': text, 'change': how}, got[:4], exp[:4])
+
+
 def check_executemany(si):
     text, plist = STMTS[si]
     if plist[0] is None:
@@ -351,6 +381,7 @@ def run(tier, seed):
         if bad:
             res.violation('h09:ledger-history:' + bad[0][:30] + ':' + str(bad[1]['ledger_history'][bad[1]['step']])[:60], bad[0], bad[1], bad[2], bad[3])
     ledger_params(res)
+    check_data_change(res)
     for si in range(len(STMTS)):
         res.case(('executemany', si))
         bad = check_executemany(si)
